@@ -127,9 +127,9 @@ theorem C05_level_head (ctx : Ctx) (sctx : SCtx) (himp : ctx.implied = sctx.impl
 
 /-- non-vacuity: marker first, marker last, a group with a version number -/
 example :
-    (fieldsOf (fieldOf .automatic true "T" (assembleBody [] true [.comp (.mk "a" none (.prim "BOOLEAN") .required)]).2)
+    (fieldsOf (fieldOf .Automatic true "T" (assembleBody [] true [.comp (.mk "a" none (.prim "BOOLEAN") .required)]).2)
       (assembleBody [] true [.comp (.mk "a" none (.prim "BOOLEAN") .required)]).1).map (·.ext) = [ExtF.addition] ∧
-    (fieldsOf (fieldOf .automatic true "T" (assembleBody [.mk "a" none (.prim "BOOLEAN") .required] true
+    (fieldsOf (fieldOf .Automatic true "T" (assembleBody [.mk "a" none (.prim "BOOLEAN") .required] true
         [.group (some 2) [.mk "b" none (.prim "NULL") .required]]).2)
       (assembleBody [.mk "a" none (.prim "BOOLEAN") .required] true
         [.group (some 2) [.mk "b" none (.prim "NULL") .required]]).1).map (·.ext) = [ExtF.none, ExtF.group] := by
